@@ -17,17 +17,19 @@ CLAIMED = {
 }
 
 import glob
+# only properties whose check has been integrated and verified on the unchanged tree are claimed
+INTEGRATED = [l.strip() for l in open(os.path.join(VERIF, "checks", "INTEGRATED")) if l.strip()]
 for mf in sorted(glob.glob(os.path.join(VERIF, "checks", "c*.meta.json"))):
     md = json.load(open(mf))
     pid = os.path.basename(mf).split(".")[0].upper()
-    if os.path.exists(os.path.join(VERIF, "checks", pid.lower() + ".py")) and not md.get("disabled"):
+    if pid in INTEGRATED and os.path.exists(os.path.join(VERIF, "checks", pid.lower() + ".py")) and not md.get("disabled"):
         CLAIMED[pid] = (md["technique"], md["level_text"], md["level_note"], md.get("design_ref", "DESIGN.md §6 " + pid))
 
 checks = []
 na = []
 for p in props:
     pid = p["id"]
-    if pid in CLAIMED:
+    if pid in CLAIMED and pid in INTEGRATED:
         tech, text, note, ref = CLAIMED[pid]
         checks.append({
             "property_id": pid,
